@@ -579,6 +579,10 @@ COLD_GROUPS = [
     ("cold: v3.0 and v3.1, same body", "new", [("CVSS3", V30), ("CVSS3", V31)], [(1, "line", 1)]),
     ("cold: same v2 vector in both threads", "new", [("CVSS2", V2B), ("CVSS2", V2B)], [(1, "line", 1), (2, "call", 1)]),
     ("cold: same text in both threads", "new", [("TEXT", TEXT), ("TEXT", TEXT)], [(1, "line", 2)]),
+    # within-line races (a read-modify-write written on one line): preemption between bytecode instructions
+    ("cold: same v3 vector in both threads, between instructions", "new", [("CVSS3", V31), ("CVSS3", V31)], [(1, "opcode", 9)]),
+    ("cold: same v2 vector in both threads, between instructions", "new", [("CVSS2", V2B), ("CVSS2", V2B)], [(1, "opcode", 9)]),
+    ("cold: same v4 vector in both threads, between instructions", "new", [("CVSS4", V4B), ("CVSS4", V4B)], [(1, "opcode", 37)]),
     ("cold: same v4 vector in three threads", "new", [("CVSS4", V4B), ("CVSS4", V4B), ("CVSS4", V4B)], [(1, "line", 1)]),
     ("cold: same v3 vector in three threads", "new", [("CVSS3", V31), ("CVSS3", V31), ("CVSS3", V31)], [(1, "line", 1)]),
     ("cold: same v2 vector in three threads", "new", [("CVSS2", V2B), ("CVSS2", V2B), ("CVSS2", V2B)], [(1, "line", 1)]),
@@ -682,6 +686,8 @@ def explore_cold_schedules(ctx, res):
                     stride = 2
                 elif "three threads" in name:
                     stride = 3
+                elif gran == "opcode":
+                    stride *= 4
             plans, npts, alone = _cold_plans(gi, bound, gran, stride)
             summary["%s | bound %d, %s%s" % (name, bound, gran, "/%d" % stride if stride > 1 else "")] = {
                 "schedules": len(plans), "points_per_thread": npts}
